@@ -66,7 +66,9 @@ def _case(draw, tier):
     return {"cfg": cfg, "contents": [{"hex": "6f31"}, {"hex": "6f32"}], "docs": docs,
             "ops": hist,
             # environment variant: a file system with coarse (1 hour) timestamp granularity
-            "coarse_mtime": draw(st.sampled_from([False, False, True]))}
+            "coarse_mtime": draw(st.sampled_from([False, False, True])),
+            # the store may be opened through a symbolic link or through a path relative to the current directory
+            "root_via": draw(st.sampled_from([None] * 4 + ["symlink", "relative", "relative"]))}
 
 
 def strategy(tier):
